@@ -15,14 +15,19 @@ MESH_NOTE = ("Trusted base: TLC; harness projection (public observers -> integer
 CHECKS = {
     "C01": dict(
         text=("TLA+ history machine MeshPool (contract) + MeshHeap (Go-slice heap model, finds capacity-dependent aliasing shapes); "
-              "TLC generates histories (exhaustive to depth 3 over 28 operation instances, simulation walks, risky shapes x sizes) "
-              "and seeded large histories; all are executed on real modeling.Mesh values and the recorded trace is validated by "
+              "TLC generates histories (exhaustive to depth 3 over the operation instances incl. primitives, attribute windows and "
+              "calls that must fail, simulation walks, risky shapes x sizes) and seeded large histories; further families: windows of "
+              "one caller-owned array, pairs of generator calls with nearly equal parameters, every material list shape, distinct "
+              "material objects under one name, magnitude ladders (weld cells up to 2^20, normals at 2^-e); all are executed on real "
+              "modeling.Mesh values and the recorded trace is validated by "
               "TLC (TraceMeshPool): after every step every live slot is re-read through public observers and must be unchanged "
               "unless it is the destination."),
         note=MESH_NOTE, design="3/C01", technique="TLA+ spec + TLC trace validation of replayed histories"),
     "C02": dict(
-        text=("Same pipeline as C01; TLC evaluates WellFormed (MeshValue.tla) on every real result of every admissible step and "
-              "checks closure of the specified operations on the model (invariant Closed)."),
+        text=("Same pipeline as C01; TLC evaluates WellFormed (MeshValue.tla) on every real result of every admissible step, on every "
+              "mesh of the pool after every step (PoolWellFormed) and checks closure of the specified operations on the model "
+              "(invariant Closed); GenShapes.tla enumerates the parameter tuples of 21 generators (primitives, extrusions, repeat, "
+              "triangulations, marching) incl. inadmissible ones: whatever is not rejected must be well formed."),
         note=MESH_NOTE, design="3/C02", technique="TLA+ spec + TLC trace validation of replayed histories"),
     "C03": dict(
         text=("Same pipeline as C01; TLC recomputes the reference result of every step with the TLA+ operator of that operation "
@@ -36,8 +41,9 @@ CHECKS["C11"] = dict(
           "NodeGraphImpl.tla: implementation-shaped model of depVersions/Outdated with arbitrary vs sorted dependency order (TLC: sorted "
           "refines the contract, map order violates Minimal but never NoStale). TLC enumerates histories (set/rewire/array add+del/read) "
           "over start shapes exhaustively to a bound, plus seeded histories on 8-node DAGs; each is executed several times on real "
-          "nodes.Struct graphs (harness processors build the symbolic term and count executions) and TraceNodeGraph judges every line: "
-          "Fresh, Minimal, Once, Version."),
+          "nodes.Struct graphs (harness processors build the symbolic term and count executions; string and slice-valued parameters of "
+          "both kinds - JSON messages incl. rejected ones, Set with the edit-in-place idiom - rotate over the repetitions; failing "
+          "processors) and TraceNodeGraph judges every line: Fresh, Minimal, Once, Version."),
     note=("Trusted base: TLC; harness processors read all their inputs and count executions; parameter leaves are parameter.Value and "
           "nodes.Value; map-order nondeterminism is sampled by repetition, not enumerated."),
     design="3/C11", technique="TLA+ spec + TLC-generated histories replayed + TLC trace validation")
@@ -46,7 +52,9 @@ CHECKS["C13"] = dict(
           "MutualExclusion on the model, without it the same model generates torn-snapshot attack schedules. Schedules are imposed on "
           "real goroutines calling UpdateParameter/ParameterData/Artifact on a real graph.Instance (node processors block at harness "
           "gates). Every recorded invoke/response history (directed and free-running stress) is checked for linearizability against the "
-          "sequential object by TLC (TraceParamServer: silent Lin steps, per-history acceptance registers)."),
+          "sequential object by TLC (TraceParamServer: silent Lin steps, per-history acceptance registers). Failing and panicking "
+          "producers, rejected updates, a CLI-initialised and a slice-valued parameter are part of the object; DeferUnlock = FALSE "
+          "is refuted at design level (LockHeldByActive)."),
     note=("Trusted base: TLC; atomic-counter stamping of invoke/response; the Go race detector (auxiliary observer for the data-race "
           "clause) on the schedules actually executed; scheduler timeouts only influence which schedules are realised."),
     design="3/C13", technique="TLA+ linearizability trace validation + model-generated schedules on real goroutines")
@@ -57,7 +65,8 @@ CHECKS["C12"] = dict(
           "round-trip law holds with index-ordered dependency lists and fails with the lexicographic order of the pinned code at "
           ">10 array inputs. TLC-generated histories (BFS from four preludes, 60-step simulation walks) and seeded random ones are "
           "executed on a real generator.App; after every step the app is saved, loaded into a fresh App and saved again; "
-          "TraceGraphEdit judges Load, Reload (nodes, wiring incl. array order, values, names, producers, metadata), Artifacts, Resave "
+          "TraceGraphEdit judges Load, Reload (nodes, wiring incl. array order, values, names, producers, metadata as saved and as the "
+          "applications show it), Artifacts, Resave (every combination of header fields) "
           "and checks the real graph against the model (vacuity guard). Shipped graph files go through load-save-load-save."),
     note=("Trusted base: TLC; projection of the App via Instance.Schema() and parameter accessors; hook App.VerifGraph (build tag verif). "
           "File/image parameters not exercised."),
@@ -97,7 +106,8 @@ CHECKS["C19"] = dict(
     text=("Sdf.tla: exact integer interior predicates of sphere, box, rounded box, capsule, rounded cone (hull of two balls), rounded "
           "cylinder, plane on a sample lattice, and the predicates Sign, Euclid, Lipschitz (all neighbouring lattice pairs and far "
           "pairs), SetOps, Translate on logged scaled values; SdfGen enumerates shape parameters; the real closures of math/sdf are "
-          "sampled and TraceSdf.tla judges every slab."),
+          "sampled (every shape also at binary magnitudes 2^-40..2^40; a concurrent pass shares the closures of a case between 8 "
+          "goroutines) and TraceSdf.tla judges every slab."),
     note=("Trusted base: TLC; values logged at 1/Q precision (Q <= 1000); Euclidean equality and Lipschitz within explicit integer "
           "bands; this property is the one furthest from TLA+'s home ground and is claimed at that stated strength."),
     design="3/C19 and NOTES-alg.md", technique="TLA+ exact point-set semantics + sampled real closures + TLC trace validation")
@@ -162,7 +172,8 @@ CHECKS["C16"] = dict(
           "below); SpatialIndexMC: implementation-shaped traversal with pruning and best-first queue, on which TLC shows pruning is "
           "complete iff TreeSound and refutes the shared-loop-variable variant. Seeded and TLC-enumerated element sets (points, segments, "
           "triangles, spheres; clustered, coincident, single) on lattice coordinates; the real octree is dumped (hook), facts come from "
-          "the element-level primitives over all elements, and TraceSpatial.tla judges every query of OctTree and BVH."),
+          "the element-level primitives over all elements, and TraceSpatial.tla judges every query of OctTree and BVH; a concurrent "
+          "pass issues the queries of a batch from 8 goroutines on one tree."),
     note=("Trusted base: TLC; hook trees.VerifCells (build tag verif); lattice coordinates so squared distances are exact integers; "
           "'within a radius' is measured on element bounds as the library defines it."),
     design="3/C16 and NOTES-spatial.md", technique="TLA+ contract + dumped real structures + TLC trace validation")
@@ -170,8 +181,9 @@ CHECKS["C20"] = dict(
     text=("Delaunay.tla: exact integer Orient/InCircle determinants, GeneralPosition, UsesInput, SameWinding, PositiveArea, NoOverlap, "
           "EmptyCircle; DelaunayBW.tla: Bowyer-Watson state machine checked by TLC for every general-position sequence of <= 5 points "
           "on a 4x4 lattice (reproduces the fixed-margin super-triangle defect at design level). Real BowyerWatson runs on lattice "
-          "point sets and their exact scaled/offset images (uniform, clustered, near-collinear hulls); TraceDelaunay.tla judges every "
-          "triangulation on the small lattice coordinates."),
+          "point sets and their exact scaled/offset images (uniform, clustered, near-collinear hulls) and on anisotropic copies "
+          "(aspect-ratio ladder 1.5:1..1000:1, judged in the stretched metric by Delaunay!JudgeS inside int32); TraceDelaunay.tla "
+          "judges every triangulation on the small lattice coordinates; a concurrent pass makes the same calls from 8 goroutines."),
     note=("Trusted base: TLC; scaling by 2^k and offsets exact in float64; hull coverage is not in the statement and only counted; an "
           "all-empty run is reported as vacuous (exit 2), never as a pass."),
     design="3/C20 and NOTES-spatial.md", technique="TLA+ exact predicates + TLC-enumerated point sets + TLC trace validation")
